@@ -33,7 +33,7 @@ def load_mutants():
 
 def run_mutant(mu, tier, with_tests, jobs):
     d = tempfile.mkdtemp(prefix='mut-%s-' % mu['id'], dir=SCRATCH)
-    out = {'id': mu['id'], 'props': mu['props'], 'note': mu.get('note', '')}
+    out = {'id': mu['id'], 'props': mu['props'], 'note': mu.get('note', ''), 'expect': mu.get('expect', 'violation')}
     try:
         subprocess.run(['rsync', '-a', '--exclude', '.git', '--exclude', '__pycache__', REPO + '/', d + '/'], check=True)
         edits = mu['edits'] if 'edits' in mu else [mu]
@@ -95,10 +95,12 @@ def main():
         for r in ex.map(lambda m: run_mutant(m, a.tier, a.tests, a.jobs), mus):
             results.append(r)
             flag = 'CAUGHT' if r.get('caught') else ('ERROR ' + r['error'] if 'error' in r else 'MISSED')
+            if r.get('expect') == 'silent':
+                flag = 'FALSE-ALARM' if r.get('caught') else 'SILENT(as expected)'
             t = '' if 'repo_tests_pass' not in r else (' repo-tests=' + ('pass' if r['repo_tests_pass'] else 'FAIL'))
             print('%-28s %-8s %s%s  %s' % (r['id'], ','.join(r['props']), flag, t,
                                            json.dumps({k: v['mechanisms'] for k, v in r.get('checks', {}).items()})), flush=True)
-    missed = [r['id'] for r in results if not r.get('caught')]
+    missed = [r['id'] for r in results if (not r.get('caught')) != (r.get('expect') == 'silent')]
     print('mutants: %d, caught: %d, missed: %s' % (len(results), len(results) - len(missed), missed))
     return 0
 
